@@ -79,6 +79,11 @@ def diff_fields(a, b):
     out = []
     pa = jax.tree_util.tree_leaves_with_path(a)
     pb = jax.tree_util.tree_leaves_with_path(b)
+    ka, kb = [jax.tree_util.keystr(p) for p, _ in pa], [jax.tree_util.keystr(p) for p, _ in pb]
+    if ka != kb:
+        # different STRUCTURE (a dropped / extra / renamed entry, e.g. an extras dict that lost its keys) is a difference too;
+        # zipping the leaves would silently compare nothing
+        return [f"<structure: only in first {sorted(set(ka) - set(kb))[:4]}, only in second {sorted(set(kb) - set(ka))[:4]}>"]
     for (p, x), (_, y) in zip(pa, pb):
         x, y = np.asarray(x), np.asarray(y)
         if x.shape != y.shape or not np.array_equal(x, y, equal_nan=True):
